@@ -48,6 +48,16 @@ def _case(draw):
     case["_alt_fams"] = draw(st.booleans())
     # colour values are strings as far as (de)serialisation goes: short hex, named, upper/lower case all come back verbatim
     case["_odd_colours"] = gen.chance(draw, 1, 3)
+    if case["_kind"] in ("RI", "SRI") and gen.chance(draw, 1, 3):
+        # inputs need not be binary, and species names may be prefixes of one another: a second input of that sort
+        poly = draw(gen.rec_case(max_obj=7, max_sp=6, min_obj=3, costs="free", labelled=True, max_fam=4, obj_poly=draw(st.integers(0, 2)),
+                                 sp_poly=draw(st.integers(0, 1)), allow_inconsistent=False, misleading=True))
+        if draw(st.booleans()):
+            poly = gen.respell_species(poly, draw(st.sampled_from(["prefix-nested", "case-twins"])))
+        poly.update({k: v for k, v in case.items() if k.startswith("_") and k not in ("_mapping", "_lab_o", "_lab_u", "_proot")})
+        poly["_proot"] = False
+        poly["_polytomous_input"] = True
+        return poly
     return case
 
 
